@@ -15,6 +15,7 @@ mod props_hist;
 mod props_merge;
 mod props_script;
 mod props_io;
+mod props_mem;
 mod props_pure;
 mod rec;
 mod rng;
@@ -53,6 +54,7 @@ fn main() {
                 "C01" | "C02" | "C03" | "C04" | "C05" | "C06" | "C08" | "C10" | "C13" | "C18" | "C20" => {
                     props_hist::run_shard(&cfg, &mut out)
                 }
+                "C07" => props_mem::run_c07(&cfg, &mut out),
                 "C09" => props_io::run_c09(&cfg, &mut out),
                 "C11" => props_merge::run_c11(&cfg, &mut out),
                 "C12" => props_merge::run_c12(&cfg, &mut out),
@@ -71,6 +73,9 @@ fn main() {
                 Some(p) => std::fs::write(p, js).expect("write out"),
                 None => println!("{js}"),
             }
+        }
+        "canary" => {
+            std::process::exit(props_mem::canary(args.get(2).map(String::as_str).unwrap_or("")));
         }
         "trace" => {
             let file = PathBuf::from(args.get(2).expect("trace <file> <workdir>"));
@@ -91,6 +96,7 @@ fn main() {
                 "C01" | "C02" | "C03" | "C04" | "C05" | "C06" | "C08" | "C10" | "C13" | "C18" | "C20" => {
                     props_hist::replay(&rp, &work)
                 }
+                "C07" => props_mem::replay(&rp, &work),
                 "C09" => props_io::replay(&rp),
                 "C11" | "C12" => props_merge::replay(&rp, &work),
                 "C14" => props_script::replay(&rp, &work),
